@@ -38,7 +38,7 @@ VARIABLES prog,       \* the program under execution
           pend,       \* per node: own pending wake-up time (delay: tagged echo, timer: next tick), 0 = none
           fbq,        \* per fb node: sequence of <<time, value>> deliveries not yet made
           writes,     \* history: sequence of <<t, id, v>> in evaluation order
-          errs,       \* history: sequence of <<t, id>> captured error ticks
+          errs,       \* history: sequence of <<t, id, input value>> captured error ticks
           cycles,     \* history: sequence of cycle times
           done
 
@@ -69,8 +69,9 @@ Requested(after, pnd, fq) ==
 Ticked(S, j, t) == S.lmt[j] = t
 Valid(S, j)     == S.lmt[j] # 0
 
+NoVal == -999999   \* "no scripted value at this time" (script values are small integers)
 ScriptVal(i, t) == LET js == {j \in 1..Len(Node(i).script) : Node(i).script[j][1] = t}
-                   IN  IF js = {} THEN -1 ELSE Node(i).script[CHOOSE j \in js : TRUE][2]
+                   IN  IF js = {} THEN NoVal ELSE Node(i).script[CHOOSE j \in js : TRUE][2]
 
 \* feedback readers: every fb node bound to producer i gets a delivery one step later
 Deliver(S, i, t, v) ==
@@ -88,7 +89,7 @@ EvalNode(S, i, t) ==
         allOk   == \A k \in ValidIns(n) : k <= Len(n.ins) => iok[k]
     IN
     CASE n.kind = "src" ->
-            IF ScriptVal(i, t) # -1 THEN Write(S, i, t, ScriptVal(i, t)) ELSE S
+            IF ScriptVal(i, t) # NoVal THEN Write(S, i, t, ScriptVal(i, t)) ELSE S
       [] n.kind = "timer" ->
             IF S.pend[i] = t
             THEN LET S1 == Write(S, i, t, S.st[i])
@@ -110,7 +111,7 @@ EvalNode(S, i, t) ==
       [] n.kind = "throwneg" ->
             IF anyTick /\ allOk
             THEN IF iv[1] < 0
-                 THEN [S EXCEPT !.errs = Append(S.errs, <<t, i>>)]
+                 THEN [S EXCEPT !.errs = Append(S.errs, <<t, i, iv[1]>>)]
                  ELSE Write(S, i, t, iv[1] * 2)
             ELSE S
       [] OTHER ->
